@@ -276,6 +276,45 @@ Section Entry.
   Proof. reflexivity. Qed.
 End Entry.
 
+
+(* a whole entry: key then value *)
+Lemma msg_dec_entry_ok kk kutf8 vk vutf8 dmf key v encv k0 v0 g :
+  sk_ok kk key = true -> msg_wval_ok (sk_enc kk key) = true -> msg_str_valid kk kutf8 key = true ->
+  ((exists sk s, vk = KS sk /\ v = VS s /\ sk_ok sk s = true /\ msg_wval_ok (sk_enc sk s) = true /\
+                 msg_str_valid sk vutf8 s = true /\ encv = enc_tag 2 (sk_wt sk) ++ msg_enc_scalar sk s) \/
+   (exists tid body, vk = KMsg tid /\ N.of_nat (length body) < 2^64 /\ dmf body v0 = DOk v /\
+                     encv = enc_tag 2 2 ++ enc_bytes body)) ->
+  (length (msg_enc_key kk key ++ encv) < length g)%nat ->
+  msg_dec_entry g kk kutf8 vk vutf8 dmf (msg_enc_key kk key ++ encv) k0 v0 = DOk (key, v).
+Proof.
+  intros Hok Hw Hstr Hval Hg.
+  assert (Hk1 : (1 <= length (msg_enc_key kk key))%nat).
+  { unfold msg_enc_key. destruct (msgw_enc_tag_nonempty 1 (sk_wt kk)) as (b & r & E). rewrite E. cbn. lia. }
+  assert (Hv1 : (1 <= length encv)%nat).
+  { destruct Hval as [(sk & s & _ & _ & _ & _ & _ & ->)|(t & body & _ & _ & _ & ->)].
+    - destruct (msgw_enc_tag_nonempty 2 (sk_wt sk)) as (b & r & E). rewrite E. cbn. lia.
+    - destruct (msgw_enc_tag_nonempty 2 2) as (b & r & E). rewrite E. cbn. lia. }
+  rewrite app_length in Hg.
+  destruct g as [|x1 [|x2 [|x3 g]]]; cbn [length] in Hg; try lia.
+  rewrite (msg_entry_key_step kk kutf8 vk vutf8 dmf x1 _ key encv k0 v0 Hok Hw Hstr).
+  destruct Hval as [(sk & s & Hvk & -> & Hsok & Hsw & Hsstr & ->)|(t & body & Hvk & Hlen & Hdm & ->)].
+  - rewrite <- (app_nil_r (msg_enc_scalar sk s)).
+    rewrite (msg_entry_val_scalar_step kk kutf8 vk vutf8 dmf x2 _ sk s [] key v0 Hvk Hsok Hsw Hsstr).
+    reflexivity.
+  - rewrite <- (app_nil_r (enc_bytes body)).
+    rewrite (msg_entry_val_msg_step kk kutf8 vk vutf8 dmf x2 _ t body [] key v0 v Hvk Hlen Hdm).
+    reflexivity.
+Qed.
+
+Lemma msg_map_put_last : forall pre key v,
+  Forall (fun e' => match e' with VEntry k' _ => msg_scmp key k' = Gt | _ => False end) pre ->
+  msg_map_put pre key v = pre ++ [VEntry key v].
+Proof.
+  induction pre as [|e pre IH]; intros key v H; [reflexivity|].
+  inversion H as [|? ? He Hpre]; subst. cbn [msg_map_put app].
+  destruct e as [|?|k' v']; try contradiction. rewrite He. f_equal. apply IH. exact Hpre.
+Qed.
+
 (* ---------- storing into the accumulator ---------- *)
 Lemma msg_find_field_num md n fd : msg_find_field md n = Some fd -> f_num fd = n.
 Proof.
@@ -454,6 +493,282 @@ Section Main.
         apply (Hstmt d t Hty Hsz (f_num fd) (enc_tag (f_num fd) 4 ++ tail) tail).
         + right. auto.
         + cbn [length]. lia.
+    Qed.
+  
+
+    (* ---------- all values of one field ---------- *)
+    Definition msg_acc_with (accf : fields) (num : N) (pre : list value) : fields :=
+      match pre with [] => accf | _ => msg_fset accf num pre end.
+
+    Lemma msg_acc_with_append accf num pre vs :
+      ~ In num (msg_keys accf) -> vs <> [] ->
+      msg_fset (msg_acc_with accf num pre) num (msg_fget (msg_acc_with accf num pre) num ++ vs)
+      = msg_acc_with accf num (pre ++ vs).
+    Proof.
+      intros Hnot Hne. unfold msg_acc_with. destruct pre as [|p0 pre].
+      - rewrite (msg_fget_notin _ _ Hnot). cbn [app]. destruct vs; [congruence|reflexivity].
+      - rewrite msg_fget_fset_same, msg_fset_fset_same. reflexivity.
+    Qed.
+
+    Definition msg_elem_good (fd : fdesc) (v : value) : Prop :=
+      msg_typed_elem slow (msg_typed slow S d) fd v = true /\
+      msg_szok_elem (msg_size_body S) (msg_sizes_ok S) (f_kind fd) v = true /\
+      msg_dec_stmt v.
+
+    (* repeated, expanded *)
+    Lemma msg_elems_step fd accf u :
+      msg_find_field md (f_num fd) = Some fd -> msg_not_map fd ->
+      1 <= f_num fd -> f_num fd <= msg_max_num ->
+      card_repeated (f_card fd) = true -> ~ In (f_num fd) (msg_keys accf) ->
+      forall vs pre tail g, Forall (msg_elem_good fd) vs ->
+        (length (flat_map (fun e => msg_enc_elem eb (f_num fd) (f_kind fd) e) vs ++ tail) < length g)%nat ->
+        exists g2, (length tail < length g2)%nat /\
+          dm (Datatypes.S d) tid grp g (flat_map (fun e => msg_enc_elem eb (f_num fd) (f_kind fd) e) vs ++ tail)
+             (msg_acc_with accf (f_num fd) pre, u) =
+          dm (Datatypes.S d) tid grp g2 tail (msg_acc_with accf (f_num fd) (pre ++ vs), u).
+    Proof.
+      intros Hf Hnm Hlo Hhi Hrep Hnot. induction vs as [|v vs IH]; intros pre tail g Hall Hg.
+      - exists g. cbn [flat_map app] in *. rewrite app_nil_r. split; [exact Hg|reflexivity].
+      - inversion Hall as [|? ? (Hty & Hsz & Hst) Hvs]; subst.
+        cbn [flat_map] in *. rewrite <- app_assoc in *.
+        destruct (msg_elem_step fd v (msg_acc_with accf (f_num fd) pre) u
+                    (flat_map (fun e => msg_enc_elem eb (f_num fd) (f_kind fd) e) vs ++ tail) g
+                    Hf Hnm Hlo Hhi Hty Hsz Hst (or_introl Hrep) Hg) as (g1 & Hg1 & E1).
+        rewrite E1, Hrep. unfold msg_append_field.
+        rewrite (msg_acc_with_append accf (f_num fd) pre [v] Hnot) by discriminate.
+        destruct (IH (pre ++ [v]) tail g1 Hvs Hg1) as (g2 & Hg2 & E2).
+        exists g2. split; [exact Hg2|]. rewrite E2. rewrite <- app_assoc. reflexivity.
+    Qed.
+
+    (* ---------- map fields ---------- *)
+    Lemma msg_map_entry_step fd kk kutf8 vdef d1 key v accf u tail g :
+      d = Datatypes.S d1 ->
+      msg_find_field md (f_num fd) = Some fd -> f_card fd = CMap kk kutf8 vdef ->
+      1 <= f_num fd -> f_num fd <= msg_max_num ->
+      msg_typed_entry (msg_typed slow S d1) fd kk kutf8 (VEntry key v) = true ->
+      msg_szok_entry (msg_size_body S) (msg_sizes_ok S) kk (f_kind fd) (VEntry key v) = true ->
+      msg_dec_stmt v ->
+      (length (msg_enc_entry eb (f_num fd) kk (f_kind fd) (VEntry key v) ++ tail) < length g)%nat ->
+      exists g2, (length tail < length g2)%nat /\
+        dm (Datatypes.S d) tid grp g (msg_enc_entry eb (f_num fd) kk (f_kind fd) (VEntry key v) ++ tail) (accf, u) =
+        dm (Datatypes.S d) tid grp g2 tail
+           (msg_fset accf (f_num fd) (msg_map_put (msg_fget accf (f_num fd)) key v), u).
+    Proof.
+      intros Hd Hf Hc Hlo Hhi Hty Hsz Hst Hg.
+      cbn [msg_enc_entry] in *. rewrite <- app_assoc in *.
+      cbn [msg_typed_entry] in Hty. cbn [msg_szok_entry] in Hsz.
+      apply andb_true_iff in Hty. destruct Hty as [Hkey Hval].
+      apply andb_true_iff in Hkey. destruct Hkey as [Hkok Hkstr].
+      apply andb_true_iff in Hsz. destruct Hsz as [Hsz Hblen].
+      apply andb_true_iff in Hsz. destruct Hsz as [Hkw Hvsz].
+      (* length of the entry body *)
+      assert (Hbody : N.of_nat (length (msg_enc_key kk key ++ msg_enc_elem eb 2 (f_kind fd) v)) < 2^64).
+      { rewrite app_length, Nnat.Nat2N.inj_add.
+        rewrite <- (msg_size_key_eq kk key Hkw).
+        rewrite <- (msg_size_elem_eq (msg_size_body S) eb (msg_sizes_ok S) 2 (f_kind fd) v);
+          [rewrite <- msg_two64_eq; lia|cbn; lia|apply (proj1 (msg_size_eq_deep S v))|exact Hvsz]. }
+      apply (msg_dm_field slow S d tid md grp g (f_num fd) 2
+               (enc_bytes (msg_enc_key kk key ++ msg_enc_elem eb 2 (f_kind fd) v)) tail (accf, u));
+        try assumption; [lia|lia|].
+      intros tagraw. unfold msg_step. rewrite Hf, Hc. rewrite Hd. cbn [msg_dsub2 N.eqb Pos.eqb].
+      rewrite (msgw_dec_bytes_enc _ _ Hbody).
+      rewrite msg_dec_entry_ok with (key := key) (v := v); [reflexivity|assumption|assumption|assumption| |cbn [length]; lia].
+      destruct (f_kind fd) as [sk|t|t] eqn:Hk; destruct v as [s|fs' u'|k0 v0]; try discriminate.
+      - left. exists sk, s. apply andb_true_iff in Hval. destruct Hval as [Hsok Hsstr].
+        cbn [msg_szok_elem] in Hvsz. repeat split; try assumption; reflexivity.
+      - right. exists t, (eb t (VMsg fs' u')).
+        cbn [msg_szok_elem] in Hvsz. apply andb_true_iff in Hvsz. destruct Hvsz as [Hsok Hslt].
+        repeat split; [apply (msg_body_len t _ Hsok Hslt)|].
+        cbn [msg_entry_default msg_empty msg_macc_of]. unfold msg_whole.
+        pose proof (Hst d1 t Hval Hsok 0 [] [] (x00 :: eb t (VMsg fs' u'))) as H.
+        rewrite app_nil_r in H. rewrite H; [reflexivity|left; auto|cbn [length]; lia].
+    Qed.
+
+    Lemma msg_fget_acc_with accf num pre :
+      ~ In num (msg_keys accf) -> msg_fget (msg_acc_with accf num pre) num = pre.
+    Proof.
+      intros H. unfold msg_acc_with. destruct pre; [apply msg_fget_notin; exact H|apply msg_fget_fset_same].
+    Qed.
+
+    Lemma msg_fset_acc_with accf num pre x :
+      x <> [] -> msg_fset (msg_acc_with accf num pre) num x = msg_acc_with accf num x.
+    Proof.
+      intros H. unfold msg_acc_with. destruct pre; destruct x; try congruence; try reflexivity.
+      apply msg_fset_fset_same.
+    Qed.
+
+    Definition msg_entry_good (fd : fdesc) (kk : skind) (kutf8 : bool) (d1 : nat) (e : value) : Prop :=
+      msg_typed_entry (msg_typed slow S d1) fd kk kutf8 e = true /\
+      msg_szok_entry (msg_size_body S) (msg_sizes_ok S) kk (f_kind fd) e = true /\
+      msg_dec_stmt_deep e.
+
+    Definition msg_before (pre es : list value) : Prop :=
+      Forall (fun e' => match e' with VEntry k' _ => msg_keys_after k' es = true | _ => False end) pre.
+
+    Lemma msg_entries_step fd kk kutf8 vdef d1 accf u :
+      d = Datatypes.S d1 ->
+      msg_find_field md (f_num fd) = Some fd -> f_card fd = CMap kk kutf8 vdef ->
+      1 <= f_num fd -> f_num fd <= msg_max_num -> ~ In (f_num fd) (msg_keys accf) ->
+      forall es pre tail g,
+        Forall (msg_entry_good fd kk kutf8 d1) es -> msg_entries_sorted es = true -> msg_before pre es ->
+        (length (flat_map (fun e => msg_enc_entry eb (f_num fd) kk (f_kind fd) e) es ++ tail) < length g)%nat ->
+        exists g2, (length tail < length g2)%nat /\
+          dm (Datatypes.S d) tid grp g (flat_map (fun e => msg_enc_entry eb (f_num fd) kk (f_kind fd) e) es ++ tail)
+             (msg_acc_with accf (f_num fd) pre, u) =
+          dm (Datatypes.S d) tid grp g2 tail (msg_acc_with accf (f_num fd) (pre ++ es), u).
+    Proof.
+      intros Hd Hf Hc Hlo Hhi Hnot. induction es as [|e es IH]; intros pre tail g Hall Hsorted Hpre Hg.
+      - exists g. cbn [flat_map app] in *. rewrite app_nil_r. split; [exact Hg|reflexivity].
+      - pose proof (Forall_inv Hall) as (Hty & Hsz & Hst). pose proof (Forall_inv_tail Hall) as Hes.
+        destruct e as [s|fs' u'|key v]; try (cbn [msg_typed_entry] in Hty; discriminate).
+        cbn [msg_entries_sorted] in Hsorted. apply andb_true_iff in Hsorted. destruct Hsorted as [Hafter Hsorted].
+        cbn [flat_map] in *. rewrite <- app_assoc in *.
+        destruct Hst as [_ Hstv].
+        destruct (msg_map_entry_step fd kk kutf8 vdef d1 key v (msg_acc_with accf (f_num fd) pre) u
+                    (flat_map (fun e => msg_enc_entry eb (f_num fd) kk (f_kind fd) e) es ++ tail) g
+                    Hd Hf Hc Hlo Hhi Hty Hsz Hstv Hg) as (g1 & Hg1 & E1).
+        rewrite E1. rewrite (msg_fget_acc_with accf (f_num fd) pre Hnot).
+        rewrite msg_map_put_last.
+        2:{ unfold msg_before in Hpre. eapply Forall_impl; [|exact Hpre].
+            intros e' He'. destruct e' as [|?|k' v']; try contradiction.
+            cbn [msg_keys_after forallb] in He'. apply andb_true_iff in He'. destruct He' as [He' _].
+            destruct (msg_scmp key k'); try discriminate. reflexivity. }
+        rewrite msg_fset_acc_with by (destruct pre; discriminate).
+        destruct (IH (pre ++ [VEntry key v]) tail g1 Hes Hsorted) as (g2 & Hg2 & E2); [|exact Hg1|].
+        + unfold msg_before in *. apply Forall_app. split.
+          * eapply Forall_impl; [|exact Hpre]. intros e' He'. destruct e' as [|?|k' v']; try contradiction.
+            cbn [msg_keys_after forallb] in He'. apply andb_true_iff in He'. destruct He' as [_ He']. exact He'.
+          * constructor; [exact Hafter|constructor].
+        + exists g2. split; [exact Hg2|]. rewrite E2. rewrite <- app_assoc. reflexivity.
+    Qed.
+
+    (* ---------- one field with all its values ---------- *)
+    Notation tv2 := (fun t x => match d with O => false | Datatypes.S d1 => msg_typed slow S d1 t x end).
+    Notation has2 := (match d with O => false | _ => true end).
+
+    Lemma msg_elem_good_of fd vs :
+      forallb (msg_typed_elem slow (msg_typed slow S d) fd) vs = true ->
+      forallb (msg_szok_elem (msg_size_body S) (msg_sizes_ok S) (f_kind fd)) vs = true ->
+      Forall msg_dec_stmt_deep vs ->
+      Forall (msg_elem_good fd) vs.
+    Proof.
+      intros H1 H2 H3. rewrite forallb_forall in H1, H2. rewrite Forall_forall in *.
+      intros v Hv. repeat split; [apply H1, Hv|apply H2, Hv|apply (proj1 (H3 v Hv))].
+    Qed.
+
+    Lemma msg_field_step fd vs accf u tail g :
+      msg_find_field md (f_num fd) = Some fd ->
+      msg_typed_field slow (msg_typed slow S d) tv2 has2 fd vs = true ->
+      msg_szok_field (msg_size_body S) (msg_sizes_ok S) fd vs = true ->
+      Forall msg_dec_stmt_deep vs ->
+      ~ In (f_num fd) (msg_keys accf) ->
+      msg_oneof_free md fd (f_num fd :: msg_keys accf) ->
+      (length (msg_enc_field eb fd vs ++ tail) < length g)%nat ->
+      exists g2, (length tail < length g2)%nat /\
+        dm (Datatypes.S d) tid grp g (msg_enc_field eb fd vs ++ tail) (accf, u) =
+        dm (Datatypes.S d) tid grp g2 tail (msg_fset accf (f_num fd) vs, u).
+    Proof.
+      intros Hf Hty Hsz Hdeep Hnot Hfree Hg.
+      unfold msg_typed_field in Hty. unfold msg_szok_field in Hsz. unfold msg_enc_field in *.
+      apply andb_true_iff in Hty. destruct Hty as [Hnum Hty].
+      apply andb_true_iff in Hnum. destruct Hnum as [Hlo Hhi].
+      apply andb_true_iff in Hsz. destruct Hsz as [_ Hsz].
+      assert (Hlo' : 1 <= f_num fd) by lia. assert (Hhi' : f_num fd <= msg_max_num) by lia.
+      assert (Hfget : msg_fget accf (f_num fd) = []) by (apply msg_fget_notin; exact Hnot).
+      (* singular fields *)
+      assert (Hsingle : forall v, vs = [v] -> msg_not_map fd -> card_repeated (f_card fd) = false ->
+                msg_typed_elem slow (msg_typed slow S d) fd v = true ->
+                (match f_card fd, v with CImp, VS s => msg_scalar_is_zero s = false | _, _ => True end) ->
+                forallb (msg_szok_elem (msg_size_body S) (msg_sizes_ok S) (f_kind fd)) vs = true ->
+                (length (flat_map (fun e => msg_enc_elem eb (f_num fd) (f_kind fd) e) vs ++ tail) < length g)%nat ->
+                exists g2, (length tail < length g2)%nat /\
+                  dm (Datatypes.S d) tid grp g (flat_map (fun e => msg_enc_elem eb (f_num fd) (f_kind fd) e) vs ++ tail) (accf, u) =
+                  dm (Datatypes.S d) tid grp g2 tail (msg_fset accf (f_num fd) vs, u)).
+      { intros v -> Hnm Hrep Htyv Hz Hszv Hgv. cbn [flat_map forallb] in *. rewrite app_nil_r in *.
+        apply andb_true_iff in Hszv. destruct Hszv as [Hszv _].
+        pose proof (Forall_inv Hdeep) as [Hstv _].
+        destruct (msg_elem_step fd v accf u tail g Hf Hnm Hlo' Hhi' Htyv Hszv Hstv (or_intror Hfget) Hgv)
+          as (g2 & Hg2 & E).
+        exists g2. split; [exact Hg2|]. rewrite E, Hrep.
+        rewrite (msg_set_field_fresh md fd v accf Hz Hfree). reflexivity. }
+      (* repeated, expanded *)
+      assert (Hexp : msg_not_map fd -> card_repeated (f_card fd) = true -> vs <> [] ->
+                forallb (msg_typed_elem slow (msg_typed slow S d) fd) vs = true ->
+                forallb (msg_szok_elem (msg_size_body S) (msg_sizes_ok S) (f_kind fd)) vs = true ->
+                (length (flat_map (fun e => msg_enc_elem eb (f_num fd) (f_kind fd) e) vs ++ tail) < length g)%nat ->
+                exists g2, (length tail < length g2)%nat /\
+                  dm (Datatypes.S d) tid grp g (flat_map (fun e => msg_enc_elem eb (f_num fd) (f_kind fd) e) vs ++ tail) (accf, u) =
+                  dm (Datatypes.S d) tid grp g2 tail (msg_fset accf (f_num fd) vs, u)).
+      { intros Hnm Hrep Hne Htyv Hszv Hgv.
+        destruct (msg_elems_step fd accf u Hf Hnm Hlo' Hhi' Hrep Hnot vs [] tail g
+                    (msg_elem_good_of fd vs Htyv Hszv Hdeep) Hgv) as (g2 & Hg2 & E).
+        exists g2. split; [exact Hg2|]. cbn [msg_acc_with app] in E. rewrite E.
+        destruct vs; [congruence|reflexivity]. }
+      destruct (f_card fd) as [| | | | |kk kutf8 vdef] eqn:Hc.
+      - (* optional *)
+        destruct vs as [|v [|]]; try discriminate.
+        apply (Hsingle v eq_refl); try assumption; try reflexivity; try (rewrite Hc; reflexivity);
+          try (intros ? ? ?; try rewrite Hc; discriminate); try exact I; try (rewrite Hc; exact I).
+      - (* implicit *)
+        destruct vs as [|v [|]]; try discriminate.
+        apply andb_true_iff in Hty. destruct Hty as [Hty Hnz].
+        apply (Hsingle v eq_refl); try assumption; try reflexivity; try (rewrite Hc; reflexivity);
+          try (intros ? ? ?; try rewrite Hc; discriminate).
+        try rewrite Hc. destruct v as [s| |]; try exact I. destruct (f_kind fd); try discriminate.
+        apply negb_true_iff in Hnz. exact Hnz.
+      - (* required *)
+        destruct vs as [|v [|]]; try discriminate.
+        apply (Hsingle v eq_refl); try assumption; try reflexivity; try (rewrite Hc; reflexivity);
+          try (intros ? ? ?; try rewrite Hc; discriminate); try exact I; try (rewrite Hc; exact I).
+      - (* repeated *)
+        apply Hexp; try assumption; try reflexivity; try (rewrite Hc; reflexivity);
+          try (intros ? ? ?; try rewrite Hc; discriminate);
+          destruct vs; try discriminate; assumption.
+      - (* packed *)
+        assert (Hne : vs <> []) by (destruct vs; [discriminate|discriminate]).
+        assert (Htyv : forallb (msg_typed_elem slow (msg_typed slow S d) fd) vs = true)
+          by (destruct vs; [discriminate|exact Hty]).
+        destruct (f_kind fd) as [sk|t|t] eqn:Hk.
+        + destruct vs as [|v0 vs']; [congruence|].
+          destruct (msg_packable sk) eqn:Hp.
+          * apply andb_true_iff in Hsz. destruct Hsz as [Hszv Hplen].
+            pose proof (msg_packed_eq (msg_size_body S) (msg_sizes_ok S) sk (v0 :: vs')) as Hpe.
+            specialize (Hpe Hszv).
+            assert (Hlen : N.of_nat (length (msg_enc_packed_payload sk (v0 :: vs'))) < 2^64)
+              by (rewrite <- Hpe, <- msg_two64_eq; lia).
+            rewrite <- app_assoc in *.
+            destruct (msg_dm_field slow S d tid md grp g (f_num fd) 2
+                        (enc_bytes (msg_enc_packed_payload sk (v0 :: vs'))) tail (accf, u)
+                        ((msg_append_field fd (v0 :: vs') accf), u) Hmd Hlo' Hhi') as (g2 & Hg2 & E);
+              [lia|lia| |exact Hg|].
+            -- intros tagraw.
+               apply (msg_step_packed slow md _ _ fd sk (v0 :: vs') tagraw tail (accf, u)); try assumption.
+               ++ rewrite Hc. reflexivity.
+               ++ rewrite forallb_forall in Htyv, Hszv. apply Forall_forall. intros v Hv.
+                  specialize (Htyv v Hv). specialize (Hszv v Hv).
+                  unfold msg_typed_elem in Htyv. try rewrite Hk in Htyv.
+                  destruct v as [s| |]; try discriminate. cbn [msg_szok_elem] in Hszv.
+                  apply andb_true_iff in Htyv. destruct Htyv as [Hok _]. split; assumption.
+            -- exists g2. split; [exact Hg2|]. rewrite E. unfold msg_append_field. rewrite Hfget. reflexivity.
+          * apply Hexp; try assumption; try reflexivity; try (rewrite Hc; reflexivity);
+              try (intros ? ? ?; try rewrite Hc; discriminate).
+        + apply Hexp; try assumption; try reflexivity; try (rewrite Hc; reflexivity);
+            try (intros ? ? ?; try rewrite Hc; discriminate).
+        + apply Hexp; try assumption; try reflexivity; try (rewrite Hc; reflexivity);
+            try (intros ? ? ?; try rewrite Hc; discriminate).
+      - (* map *)
+        apply andb_true_iff in Hty. destruct Hty as [Hty Hsorted].
+        apply andb_true_iff in Hty. destruct Hty as [Hhas2 Hty].
+        assert (Hd : exists d1, d = Datatypes.S d1) by (destruct d; [discriminate|eexists; reflexivity]).
+        destruct Hd as (d1 & Hd).
+        assert (Htye : forallb (msg_typed_entry (msg_typed slow S d1) fd kk kutf8) vs = true).
+        { destruct vs; [discriminate|]. rewrite Hd in Hty. exact Hty. }
+        destruct (msg_entries_step fd kk kutf8 vdef d1 accf u Hd Hf Hc Hlo' Hhi' Hnot vs [] tail g) as (g2 & Hg2 & E);
+          [ |exact Hsorted|constructor|exact Hg|].
+        + rewrite forallb_forall in Htye, Hsz. rewrite Forall_forall in *.
+          intros e He. repeat split; [apply Htye, He|apply Hsz, He|apply (proj1 (Hdeep e He))|apply (proj2 (Hdeep e He))].
+        + exists g2. split; [exact Hg2|]. cbn [msg_acc_with app] in E. rewrite E.
+          destruct vs; [discriminate|reflexivity].
     Qed.
   End InMessage.
 End Main.
